@@ -74,6 +74,8 @@ class Calc(object):
         elif p[2] == '*':
             p[0] = p[1] * p[3]
         elif p[2] == '/':
+            if p[3] == 0:
+                raise ParseError("division by zero")
             p[0] = p[1] // p[3]
         elif p[2] in ('<<', '>>') and not 0 <= p[3] <= 64:
             raise ParseError("shift count '%s' out of range" % p[3])
@@ -110,6 +112,8 @@ class Calc(object):
             raise ParseError("numeric constant '%s' not found" % p[1])
 
     def p_error(self, p):
+        if p is None:
+            raise ParseError("unexpected end of expression")
         raise ParseError("syntax error at '%s'" % p.value)
 
 
